@@ -114,7 +114,7 @@ CLAIMED = {
                   "the band-truncated state; the 1-D convolution theorem from a primitive root. The term models are run (extracted, exact Gaussian rationals, sparse band convolutions) against "
                   "every exponax nonlinear function on random states with content up to Nyquist.",
              note="The retained band is read from the implementation's mask (floor of frac*(N//2)-1 in double precision, which can be one below the rational cutoff); the theorems need only K <= K(N), "
-                  "which the check verifies for N up to 260. The convolution theorem is proved in every dimension for the D-fold iterate of the 1-D transform (DFT/DFTD.v); the re-indexing between the full nat-indexed grid and the signed band list of the product model is by the fftfreq bijection (C04) and is exercised by the correspondence, not proved. Polynomial degree > 3 not modelled. Independent NumPy fine-grid oracle as witness.",
+                  "which the check verifies for N up to 260. The whole chain is proved in every dimension D: for the D-fold iterate of the 1-D transform (the rfftn/irfftn contract) the convolution theorem, the identification of the full-grid circular convolution of band-masked spectra with the model's band sum (stored index <-> signed wavenumber), hence fft(ifft U * ifft V) restricted to the band = prod2 U V, and prod2 = the alias-free documented product for 3K < N. Polynomial degree > 3 not modelled. Independent NumPy fine-grid oracle as witness.",
              technique="Rocq proof (lia/nia index argument for alias-freeness, lifting over term combinators) + exact-rational term correspondence", design="§4 C03"),
  "C04": dict(text="Theorems: (Z arithmetic, all N) the stored index <-> signed wavenumber map is a bijection onto the band and congruent to the index mod N; mode-slice blocks partition "
                   "the leading axes and preserve the signed wavenumber when copied to a finer grid; oddball mask spec; both indexing options give wavenumber_shape with the rfft component on the "
